@@ -366,26 +366,72 @@ func (ex *Exec) copySlice(st *State, dst, src *SliceV, pos token.Pos) (*Term, bo
 		}
 		return n, true
 	}
-	// general path: need a concrete count
+	// general path: concrete count, or a symbolic count bounded by the physical size of a vector
 	c, ok := ex.concretize(st, n, "copy length")
-	if !ok {
-		// one side symbolic bytes, the other a vector with concrete length: bound by that length
-		panic(ex.unsupported("copy with symbolic length between non-symbolic arrays at %s", ex.posString(pos)))
+	if ok {
+		vals := make([]Value, c)
+		for i := int64(0); i < c; i++ {
+			v, ok := ex.sliceLoad(st, src, ex.idxConst(i), pos)
+			if !ok {
+				return nil, false
+			}
+			vals[i] = v
+		}
+		for i := int64(0); i < c; i++ {
+			if !ex.store(st, ex.sliceElemPtr(dst, ex.idxConst(i)), vals[i], pos) {
+				return nil, false
+			}
+		}
+		return ex.idxConst(c), true
 	}
-	vals := make([]Value, c)
-	for i := int64(0); i < c; i++ {
+	bound := int64(-1)
+	upd := func(p *Ptr, off *Term) {
+		for _, al := range p.Alts {
+			if al.Obj == nil || al.Obj.Kind != OVec || len(al.Path) != 0 {
+				continue
+			}
+			b := int64(len(al.Obj.Elems))
+			if o, ok := ex.termInt64(off); ok {
+				b -= o
+			}
+			if bound < 0 || b < bound {
+				bound = b
+			}
+		}
+	}
+	upd(dstB, dst.Off)
+	upd(srcB, src.Off)
+	if _, hi := n.Bounds(); hi != nil && hi.IsInt64() && (bound < 0 || hi.Int64() < bound) {
+		bound = hi.Int64()
+	}
+	if bound < 0 || bound > 4096 {
+		panic(ex.unsupported("copy with unbounded symbolic length between non-symbolic arrays at %s", ex.posString(pos)))
+	}
+	saveG := st.G
+	vals := make([]Value, 0, bound)
+	for i := int64(0); i < bound; i++ {
+		in := tb.Restrict(ex.ilt(ex.idxConst(i), n), st.ctx)
+		if in.IsFalse() {
+			break
+		}
+		ex.setGuard(st, tb.And(saveG, in))
 		v, ok := ex.sliceLoad(st, src, ex.idxConst(i), pos)
 		if !ok {
+			ex.setGuard(st, saveG)
 			return nil, false
 		}
-		vals[i] = v
+		vals = append(vals, v)
 	}
-	for i := int64(0); i < c; i++ {
-		if !ex.store(st, ex.sliceElemPtr(dst, ex.idxConst(i)), vals[i], pos) {
+	for i := range vals {
+		in := tb.Restrict(ex.ilt(ex.idxConst(int64(i)), n), st.ctx)
+		ex.setGuard(st, tb.And(saveG, in))
+		if !ex.store(st, ex.sliceElemPtr(dst, ex.idxConst(int64(i))), vals[i], pos) {
+			ex.setGuard(st, saveG)
 			return nil, false
 		}
 	}
-	return ex.idxConst(c), true
+	ex.setGuard(st, saveG)
+	return n, true
 }
 
 // ---------------------------------------------------------------- maps
